@@ -113,6 +113,15 @@ def _value_kind(type_name: str) -> str:
     return "plain"
 
 
+def ts_micros(raw) -> int:
+    """sqlite DateTime text -> microseconds (a natural number the model can order)"""
+    import datetime
+    if raw is None:
+        return 0
+    t = datetime.datetime.fromisoformat(str(raw))
+    return int((t - datetime.datetime(2020, 1, 1)).total_seconds() * 1000000)
+
+
 def dump_db(db_path: str, I: Interner, keep_ts: bool = False) -> dict:
     """Canonical content of the modelled tables.  Every table is a sorted list of tuples of interned ids."""
     con = sqlite3.connect(db_path)
@@ -124,8 +133,7 @@ def dump_db(db_path: str, I: Interner, keep_ts: bool = False) -> dict:
         d["files"] = sorted(I.id(h) for (h,) in q("select value_hash from file"))
         d["subvalues"] = sorted((I.id(c), I.id(p)) for c, p in q("select value_hash, parent_value_hash from subvalue"))
         nodes = q("select call_hash, task_hash, args_hash, value_hash, timestamp from call_node")
-        ranks = {t: i for i, t in enumerate(sorted({n[4] for n in nodes}))}
-        d["nodes"] = sorted((I.id(c), I.id(t), I.id(a), I.id(v), ranks[ts]) for c, t, a, v, ts in nodes)
+        d["nodes"] = sorted((I.id(c), I.id(t), I.id(a), I.id(v), ts_micros(ts)) for c, t, a, v, ts in nodes)
         d["edges"] = sorted((I.id(p), I.id(c), o) for p, c, o in q("select parent_id, child_id, call_order from call_edge"))
         args = q("select arg_hash, call_hash, value_hash, arg_position, arg_key from argument")
         slot = {}
@@ -168,9 +176,7 @@ def canon_model_dump(parsed) -> dict:
             d[name] = sorted((r[0], str(r[1])) for r in rows)
         else:
             d[name] = sorted(tuple(r) for r in rows)
-    nodes = d.get("nodes", [])
-    ranks = {t: i for i, t in enumerate(sorted({n[4] for n in nodes}))}
-    d["nodes"] = sorted((n[0], n[1], n[2], n[3], ranks[n[4]]) for n in nodes)
+    d["nodes"] = sorted(tuple(n) for n in d.get("nodes", []))
     return d
 
 
@@ -377,6 +383,15 @@ class OpTap:
         self.tap.remove()
 
     # -- helpers
+    def _node_ts(self, call_hash) -> int:
+        """the timestamp sqlite stored for this call node (0 if it is not durable)"""
+        con = sqlite3.connect(self.tap.db_path)
+        try:
+            row = con.execute("select timestamp from call_node where call_hash = ?", (call_hash,)).fetchone()
+            return ts_micros(row[0]) if row else 0
+        finally:
+            con.close()
+
     def kind_of(self, value) -> str:
         if isinstance(value, self.Task):
             return "task"
@@ -465,7 +480,7 @@ class OpTap:
             from redun.backends.db import hash_call_node
             call = out if out is not None else hash_call_node(k["task_hash"], k["args_hash"], k["result_hash"],
                                                               k["child_call_hashes"])
-            self.clock += 1
+            ts = self._node_ts(call)
             expr_pos, expr_kw = k["expr_args"]
             eval_pos, eval_kw = k["eval_args"]
             specs = []
@@ -481,7 +496,7 @@ class OpTap:
                 ups = sorted({I.id(u) for u in self.b._find_arg_upstreams(ea)})
                 args_sx.append(f"(i{slot} {self.vspec(va)} {_sxv(ups)})")
             sub = sorted(I.id(t.hash) for t in k["subtree_tasks"])
-            node = f"(i{I.id(call)} i{I.id(k['task_hash'])} i{I.id(k['args_hash'])} i{I.id(k['result_hash'])} i{self.clock})"
+            node = f"(i{I.id(call)} i{I.id(k['task_hash'])} i{I.id(k['args_hash'])} i{I.id(k['result_hash'])} i{ts})"
             ev.update(req=f"(cnode i{r} {node} {_sxv([I.id(c) for c in k['child_call_hashes']])} "
                           f"({' '.join(args_sx)}) {_sxv(sub)})",
                       call=I.id(call), sub=sub, children=[I.id(c) for c in k["child_call_hashes"]])
@@ -796,7 +811,6 @@ class Case:
         """continue on a copy of a durable snapshot: the model is told to go back to that state with `load`"""
         self.repos[r] = path
         d = dump_db(path, self.I)
-        self.clock = max(self.clock, len(d["nodes"]) + 1)      # later call nodes are newer than every loaded one
         self.events.append(dict(req=f"(load i{r} {dump_to_sx(d)})", kind="ack", name="load"))
 
     def transfer(self, src, dst, roots=None, twice=False):
